@@ -92,3 +92,7 @@ def jobs(tier):
                    skip_asserts=['solver.cpp:80', 'solver.cpp:139', 'solver.cpp:156'], timeout=2400, solver='cadical',
                    bounded='unbounded in the number of iterations of the three search loops (loop contracts); flaw set capacity 2 for the selection of the best flaw'))
     return out
+
+
+# what the evidence file says is NOT decided by this module, and what it assumes
+INFO = {'not_under_contract': ['solver::solve (written, parked: DFCC loop-contract instrumentation exhausts memory)', 'assert_facts, the value accessors, init / read', 'every callee of solve_inconsistencies: replaced by contracts that are ASSUMED here', 'the composition with C07/C10/C12/C13/C14 (paper argument only)'], 'assumptions': ['callee contracts of next / take_decision / record / propagate / graph::check / get_incs: each may change the network (ghost epoch) and get_incs stamps the epoch - assumed, not proved']}
